@@ -1,11 +1,15 @@
 #!/bin/bash
-# usage: try_seed.sh <patch.diff> <property> [tier]   — applies the patch to /repo, runs the check, reverts.
+# usage: try_seed.sh <patch.diff> <property> [tier]
+# Applies the patch in a scratch worktree of /repo HEAD (never in /repo itself), runs the check against
+# that worktree with evidence/out redirected to a scratch dir, prints the verdict lines, removes both.
 set -u
 patch=$1; prop=$2; tier=${3:-quick}
-cd /repo || exit 9
-if ! git apply --check "$patch" 2>/dev/null; then echo "PATCH-DOES-NOT-APPLY $patch"; exit 8; fi
-git apply "$patch"
-cd /verif && timeout 3600 ./bin/ssa2smt check --property "$prop" --tier "$tier" 2>&1 | grep -E "^(VIOLATION|KNOWN-FINDING|INCONCLUSIVE|property=|violation detail)" | cut -c1-300
+id=$$
+wt=/tmp/try-wt-$id; sc=/tmp/try-sc-$id
+git -C /repo worktree add -q --detach $wt HEAD || exit 9
+if ! git -C $wt apply "$patch" 2>/dev/null; then echo "PATCH-DOES-NOT-APPLY $patch"; git -C /repo worktree remove --force $wt; exit 8; fi
+mkdir -p $sc
+cd /verif && VERIF_REPO=$wt VERIF_SCRATCH=$sc timeout 3600 ./bin/ssa2smt check --property "$prop" --tier "$tier" 2>&1 | grep -E "^(VIOLATION|KNOWN-FINDING|INCONCLUSIVE|property=|violation detail)" | cut -c1-260 | awk '!seen[substr($0,1,60)]++' | head -12
 rc=${PIPESTATUS[0]}
-git -C /repo checkout -- . 
-echo "exit=$rc  repo-clean=$(git -C /repo status --short | wc -l)"
+git -C /repo worktree remove --force $wt; rm -rf $sc
+echo "exit=$rc"
